@@ -213,6 +213,8 @@ FS_TREES = {
     "big2+dup": {"d/L1": (b"1", BIG), "d/L2": (b"1", BIG), "d/y": (b"y", 1), "z": (b"y", 1)},
     "siblings": {"d/x": (b"x", 1), "d2/y": (b"y", 2), "d/e.bak/z": (b"z", 3), "d/e/w": (b"w", 4)},
     "flat4": {"a": (b"a", 1), "b": (b"b", 2), "c": (b"c", 3), "d": (b"d", 4)},
+    # CR LF texts: their legacy (md5-dos2unix) digests differ from their md5
+    "text3": {"t": (b"ab\r\n", 3), "s/u": (b"c\r\nd", 2), "v": (b"v", 2)},
 }
 
 _PERM = {"order": None, "used": 0, "sizes": []}
@@ -305,6 +307,10 @@ def build_once(w, tname, order, jobs, perm, statemode, threshold_direct, upload=
             for rel in tree:
                 if rel != skip:
                     hash_file(os.path.join(ws, *rel.split("/")), LFS, "md5", state=state)
+        if statemode == "after-legacy":
+            # the same hash-state already served a build of this directory under the legacy algorithm
+            legacy = make_odb("local", w.p("odb-legacy"), state=state, hash_name="md5-dos2unix")
+            B.build(legacy, ws, LFS, "md5-dos2unix", checksum_jobs=jobs)
         for r in range(runs):
             if r == 1 and statemode == "touched":
                 first = sorted(tree)[0]
@@ -330,8 +336,18 @@ def build_once(w, tname, order, jobs, perm, statemode, threshold_direct, upload=
             with obj.fs.open(obj.path, "rb") as f:
                 if f.read() != ref.tree_bytes(want):
                     viol.append(("fs-listing-bytes-differ-from-reference", f"tree={tname} perm={perm} run={r}"))
-            if meta.nfiles != len(tree) or meta.size != sum(s for _f, s in tree.values()):
+            if meta.nfiles != len(tree) or meta.size != sum(len(content(sp)) for sp in tree.values()):
                 viol.append(("fs-meta-count-or-size-wrong", f"{meta.nfiles} {meta.size}"))
+        if statemode == "then-legacy":
+            # ... and the other way round: after the md5 build, the same state serves a legacy build
+            legacy = make_odb("local", w.p("odb-legacy"), state=state, hash_name="md5-dos2unix")
+            _s2, _m2, obj2 = B.build(legacy, ws, LFS, "md5-dos2unix", checksum_jobs=jobs)
+            want2 = {rel: ref.digest("md5-dos2unix", content(sp)) for rel, sp in tree.items()}
+            with obj2.fs.open(obj2.path, "rb") as f:
+                got2 = f.read()
+            if obj2.oid != ref.tree_oid(want2) or got2 != ref.tree_bytes(want2):
+                viol.append(("fs-identifier-differs-from-reference/legacy-build-after-md5-build",
+                             f"tree={tname} jobs={jobs} {obj2.oid} != {ref.tree_oid(want2)}"))
         pool_used = _PERM["used"]
         # sub-directory object == direct build of that sub-directory
         for pre in prefixes_of(tree):
@@ -373,8 +389,11 @@ def run_fs(case):
     order = case["order"]
     for jobs in (1, 2, 4):
         for perm in perms:
-            for sm, up in [(m, False) for m in ("none", "cold", "warm", "touched", "rewritten-near", "partial-first", "partial-last")] + \
-                    [(m, True) for m in ("none", "partial-first", "partial-last")]:
+            modes = [(m, False) for m in ("none", "cold", "warm", "touched", "rewritten-near", "partial-first", "partial-last")] + \
+                [(m, True) for m in ("none", "partial-first", "partial-last")]
+            if tname == "text3":
+                modes += [("after-legacy", False), ("then-legacy", False)]
+            for sm, up in modes:
                 with World() as w:
                     viol, info = build_once(w, tname, order, jobs, perm, sm,
                                             threshold_direct=(sm in ("none", "warm") and not up), upload=up)
@@ -392,6 +411,8 @@ def run_fs(case):
                         res["vac"]["pool_perms_nonidentity"] += 1
                 if sm in ("warm", "touched"):
                     res["vac"]["state_warm_runs"] += 1
+                if sm.endswith("-legacy"):
+                    res["vac"]["algorithm_switch_runs"] = res["vac"].get("algorithm_switch_runs", 0) + 1
                 if sm.startswith("partial"):
                     res["vac"]["state_partial_runs"] = res["vac"].get("state_partial_runs", 0) + 1
                 res["outcomes"].add(repr((bool(viol), info["pool_used"] > 0)))
@@ -465,7 +486,7 @@ def run(ctx):
         "key parts never contain '/' (file-system names)",
     ]
     ctx.require("perms_gt1", "nested_prefixes", "pool_runs", "pool_perms_nonidentity", "state_warm_runs",
-                "real_pool_runs", "state_partial_runs", "upload_builds")
+                "real_pool_runs", "state_partial_runs", "upload_builds", "algorithm_switch_runs")
     nsl = 16 if ctx.tier != "thorough" else 192
     cs = [{"part": "pure", "maxk": maxk, "slice": [i, nsl]} for i in range(nsl)]
     for tname, tree in FS_TREES.items():
@@ -483,7 +504,7 @@ def run(ctx):
     first = {}
     for case, res in ctx.pmap("run_case", cs, 1):
         bm = res.pop("bytes_map", None) if isinstance(res, dict) else None
-        ctx.absorb(case, res)
+        ctx.absorb(case, res, "run_case")
         first[json.dumps(case, sort_keys=True)] = res
         for b, sets in (bm or {}).items():
             by_bytes.setdefault(b, set()).update(tuple(map(tuple, s)) for s in sets)
